@@ -86,6 +86,8 @@ def judge(args):
             back = cdd.json_schema.parse.json_schema(copy.deepcopy(doc))
         from harness import real
         rb = real.plain(back)
+        # what the parser handed out is kept (the caller's own object) next to what it looked like then: see _batch
+        res["_held"] = (back, json.dumps(rb, sort_keys=True, default=repr))
     except Exception as e:  # noqa
         fails.append(("parse_raises", "the parser raises on the emitted schema: {}: {}".format(type(e).__name__, str(e)[:100])))
         return res
@@ -126,7 +128,19 @@ def _canon_typ(t):
 
 
 def _batch(items):
-    return [judge(a) for a in items]
+    """a batch is one caller that parses many schemas and KEEPS the results (`[parse(s) for s in schemas]`): an interface, once returned,
+    is the caller's; a later parse of another schema must not change it"""
+    from harness import real
+
+    out = [judge(a) for a in items]
+    for res in out:
+        held = res.pop("_held", None)
+        if held is not None:
+            now = json.dumps(real.plain(held[0]), sort_keys=True, default=repr)
+            if now != held[1]:
+                res["fails"].append(("back_aliased", "the interface returned for this schema was changed afterwards by the parse of ANOTHER schema: "
+                                     "it read {} and now reads {}".format(held[1][:120], now[:120])))
+    return out
 
 
 def check(run, replay=None):
